@@ -222,10 +222,13 @@ def batcher_expr(case, obs):
     base = "show (split_of_ratio %s %s %s %s) %s %s" % (
         cnat(n), cfloat(ratio), cbool(mode == "random"), cnl(perm), cnat(n if b is None else b), cnl(order))
     zlist = lambda l: "[" + "; ".join("%d" % x for x in l) + "]"
+    # further epochs are compared inside Coq; for large n only on every third case (the chunking of a second
+    # permutation adds little there and costs as much as the first)
+    further = slice(1, None) if (n <= 60 or seed % 3 == 0) else slice(0, 0)
     ext = "show_x %s %s %s %s %s %s [%s] [%s]%%Z" % (
         cnat(n), copt(b, cnat), cfloat(ratio), cbool(mode == "random"), cbool(shuffle), cnl(perm),
-        "; ".join(cnl(o) for o in obs.get("orders", [])[1:]),
-        "; ".join("[" + "; ".join(zlist(bt) for bt in ep) + "]" for ep in obs.get("epochs", [])[1:]))
+        "; ".join(cnl(o) for o in obs.get("orders", [])[further]),
+        "; ".join("[" + "; ".join(zlist(bt) for bt in ep) + "]" for ep in obs.get("epochs", [])[further]))
     return "(%s, %s)" % (base, ext)
 
 
@@ -287,7 +290,11 @@ def check_batcher(ctx: Ctx):
                 ok = False
             else:      # every epoch, has_validation, the sizes of all permutations drawn from the generator
                 mv["further_epochs_agree"], mv["has_validation"], mv["draws"] = vx[1]
-                ok = ok and mv["further_epochs_agree"] is True and all(mv[k] == obs[k] for k in ("has_validation", "draws"))
+                n_init = 1 if obs["perm"] else 0
+                shuffle = case[5]
+                ok = (ok and mv["further_epochs_agree"] is True and mv["has_validation"] == obs["has_validation"]
+                      and mv["draws"] == obs["draws"][:len(mv["draws"])]
+                      and len(obs["draws"]) == n_init + (N_EPOCHS if shuffle else 0))
         ctx.cov["traces_validated_against_impl"] += 1
         if not ok:
             nd += 1
@@ -436,6 +443,8 @@ def run(ctx: Ctx):
     ctx.hash_sources("core/utils/utils.py", ["subdivide_batches", "generate_batches"])
     ctx.hash_sources("diffractive_imaging/ptychography_base.py",
                      ["PtychographyBase.error_estimate", "PtychographyBase.reset_recon"])
+    ctx.hash_sources("diffractive_imaging/ptychography.py", ["Ptychography.reconstruct", "Ptychography.reset_recon"])
+    ctx.hash_sources("core/utils/rng.py", ["RNGMixin"])
     ctx.cov["rule"] = (
         "cases: (n, batch, ratio, mode, seed, shuffle) for SimpleBatcher [small-scope grid over n x 29 ratios + "
         "seeded random stream], (n, num_batches|max_batch, start) for subdivide/generate_batches [grid incl. "
@@ -460,6 +469,12 @@ def run(ctx: Ctx):
         run_tie(ctx, ["subdivide_batches", "generate_batches"])
     except Exception as e:  # noqa  (fail closed: the tie could not be established)
         ctx.broken_obligation = "; ".join(filter(None, [ctx.broken_obligation, "arithmetic tie could not run: %r" % (e,)]))
+    try:  # round 3: the split block of SimpleBatcher.__init__ (float -> int glue included), translated from the CURRENT
+        # source, = the model's split_of_ratio for all inputs, by theorem (coq/gen_proofs/C09_Glue_*.v)
+        from ..c09_glue_tie import run_glue_tie
+        run_glue_tie(ctx)
+    except Exception as e:  # noqa  (fail closed)
+        ctx.broken_obligation = "; ".join(filter(None, [ctx.broken_obligation, "glue tie could not run: %r" % (e,)]))
     check_batcher(ctx)
     check_generate(ctx)
     check_toy_recon(ctx)
